@@ -126,7 +126,7 @@ pub fn rat_lit(p: i64, q: i64) -> String {
 
 const NODE_ATOM: u32 = 1 << 30;
 
-#[derive(Clone, Debug)]
+#[derive(Clone, Debug, PartialEq, Eq, Hash)]
 pub struct Aff {
     pub c0: Dy,
     /// (atom key, coefficient), sorted by key; keys < 2^30 are variables, others are opaque nodes
@@ -242,8 +242,9 @@ impl<'a> Emit<'a> {
             }
             let node = &self.arena.nodes[n as usize];
             let kids: Vec<u32> = match node {
-                Node::Un(U::Neg, a) => vec![*a],
-                Node::Bin(B::Add, a, b) | Node::Bin(B::Sub, a, b) | Node::Bin(B::Mul, a, b) | Node::Bin(B::Div, a, b) => vec![*a, *b],
+                Node::Un(_, a) => vec![*a],
+                Node::Bin(_, a, b) => vec![*a, *b],
+                Node::Powi(a, _) | Node::Root(a, _) => vec![*a],
                 _ => vec![],
             };
             let missing: Vec<u32> = kids.iter().cloned().filter(|k| !self.arena.aff_cache.borrow().contains_key(k)).collect();
@@ -278,7 +279,7 @@ impl<'a> Emit<'a> {
                     } else if y.is_const() {
                         x.scale(&y.c0)
                     } else {
-                        Aff::atom(NODE_ATOM | n)
+                        Aff::atom(NODE_ATOM | self.canonical(n))
                     }
                 }
                 Node::Bin(B::Div, a, b) => {
@@ -288,15 +289,71 @@ impl<'a> Emit<'a> {
                         let inv = Dy { neg: y.c0.neg, mant: crate::big::BigU::from_u64(1), exp: -y.c0.exp };
                         x.scale(&inv)
                     } else {
-                        Aff::atom(NODE_ATOM | n)
+                        Aff::atom(NODE_ATOM | self.canonical(n))
                     }
                 }
+                Node::Un(_, _) | Node::Bin(_, _, _) | Node::Powi(_, _) | Node::Root(_, _) => Aff::atom(NODE_ATOM | self.canonical(n)),
                 _ => Aff::atom(NODE_ATOM | n),
             };
             self.arena.aff_cache.borrow_mut().insert(n, std::rc::Rc::new(a));
             stack.pop();
         }
         self.arena.aff_cache.borrow().get(&id).unwrap().clone()
+    }
+
+
+    /// representative of an opaque node: an earlier node with the same operator whose operands have the same
+    /// affine normal forms (operands' forms must already be cached).  Sound: equal normal forms denote equal reals.
+    fn canonical(&self, n: u32) -> u32 {
+        use std::hash::{Hash, Hasher};
+        let cache = self.arena.aff_cache.borrow();
+        let shape = |m: u32| -> Option<(u32, i64, Vec<std::rc::Rc<Aff>>)> {
+            let g = |k: &u32| cache.get(k).cloned();
+            Some(match &self.arena.nodes[m as usize] {
+                Node::Un(op, a) => (1, *op as i64, vec![g(a)?]),
+                Node::Bin(op, a, b) => {
+                    let (mut x, mut y) = (g(a)?, g(b)?);
+                    if matches!(op, B::Add | B::Mul | B::Min | B::Max) {
+                        let mut hx = std::collections::hash_map::DefaultHasher::new();
+                        let mut hy = std::collections::hash_map::DefaultHasher::new();
+                        x.hash(&mut hx);
+                        y.hash(&mut hy);
+                        if hx.finish() > hy.finish() {
+                            std::mem::swap(&mut x, &mut y);
+                        }
+                    }
+                    (2, *op as i64, vec![x, y])
+                }
+                Node::Powi(a, k) => (3, *k as i64, vec![g(a)?]),
+                Node::Root(a, k) => (4, *k as i64, vec![g(a)?]),
+                _ => return None,
+            })
+        };
+        let sh = match shape(n) {
+            Some(s) => s,
+            None => return n,
+        };
+        let mut h = std::collections::hash_map::DefaultHasher::new();
+        sh.0.hash(&mut h);
+        sh.1.hash(&mut h);
+        for a in &sh.2 {
+            a.hash(&mut h);
+        }
+        let key = h.finish();
+        let mut canon = self.arena.canon.borrow_mut();
+        let reps = canon.entry(key).or_default();
+        for &r in reps.iter() {
+            if r == n {
+                return r;
+            }
+            if let Some(rs) = shape(r) {
+                if rs.0 == sh.0 && rs.1 == sh.1 && rs.2.len() == sh.2.len() && rs.2.iter().zip(sh.2.iter()).all(|(p, q)| **p == **q) {
+                    return r;
+                }
+            }
+        }
+        reps.push(n);
+        n
     }
 
     fn is_rat_atom(&self, id: u32) -> bool {
@@ -510,19 +567,23 @@ impl<'a> Emit<'a> {
                 writeln!(s, "(declare-const sgz{} Bool)", n).unwrap();
             }
         }
+        // all opaque atoms are declared up front: a canonical representative may have a larger id than a node
+        // whose normal form mentions it
+        for &n in &self.need_atoms {
+            match &self.arena.nodes[n as usize] {
+                Node::Rat(p, q) => writeln!(s, "(define-fun n{} () Real {})", n, rat_lit(*p, *q)).unwrap(),
+                Node::Const(_) | Node::Var(_) => {}
+                _ => writeln!(s, "(declare-const n{} Real)", n).unwrap(),
+            }
+        }
         // nodes in increasing id order: children (smaller ids) are defined before their users
         for &n in &self.need_nodes {
             if self.need_atoms.contains(&n) {
                 let node = &self.arena.nodes[n as usize];
                 match node {
-                    Node::Rat(p, q) => {
-                        writeln!(s, "(define-fun n{} () Real {})", n, rat_lit(*p, *q)).unwrap();
-                        continue;
-                    }
-                    Node::Const(_) | Node::Var(_) => continue,
+                    Node::Rat(_, _) | Node::Const(_) | Node::Var(_) => continue,
                     _ => {}
                 }
-                writeln!(s, "(declare-const n{} Real)", n).unwrap();
                 match node {
                     Node::Un(op, a) => {
                         let x = self.nref(*a);
